@@ -12,7 +12,7 @@ import numpy as np
 
 from .oracle import refq
 
-ENTRY_CLASSES = ["gauss", "int", "pure_imag", "single_axis", "zeros", "sparse", "mixed_mag", "huge", "tiny"]
+ENTRY_CLASSES = ["gauss", "int", "pure_imag", "single_axis", "zeros", "sparse", "mixed_mag", "huge", "tiny", "nonpos", "nonneg", "nonpos_sparse"]
 
 
 def rng_for(seed: int, *key) -> np.random.Generator:
@@ -45,6 +45,14 @@ def entries(rng, cls: str, m: int, n: int) -> np.ndarray:
         c = rng.standard_normal((m, n, 4)) * 1e140
     elif cls == "tiny":
         c = rng.standard_normal((m, n, 4)) * 1e-140
+    elif cls == "nonpos":            # sign patterns: no strictly positive component anywhere
+        c = -np.abs(rng.standard_normal((m, n, 4)))
+    elif cls == "nonneg":
+        c = np.abs(rng.standard_normal((m, n, 4)))
+    elif cls == "nonpos_sparse":
+        c = -np.abs(rng.standard_normal((m, n, 4))) * (rng.random((m, n, 1)) < 0.4)
+        if rng.random() < 0.5:
+            c[..., 0] = 0.0
     else:
         raise ValueError(cls)
     return refq.qa(c)
@@ -104,7 +112,7 @@ def spectrum(kind: str, r: int, rng, kappa: float = 10.0) -> np.ndarray:
 
 
 STRUCT_CLASSES = ["axis0", "axis1", "axis2", "axis3", "herm_psd", "herm_nsd", "herm_indef", "unitary", "diag",
-                  "unit_identity", "rank1", "upper_tri", "lower_tri", "one_nonzero", "real_only", "tiny_row"]
+                  "unit_identity", "rank1", "upper_tri", "lower_tri", "one_nonzero", "real_only", "tiny_row", "neg_identity"]
 
 
 def structured(rng, cls: str, m: int, n: int) -> np.ndarray:
@@ -134,6 +142,12 @@ def structured(rng, cls: str, m: int, n: int) -> np.ndarray:
         a = int(rng.integers(0, 4))
         for i in range(min(m, n)):
             c[i, i, a] = 1.0
+        return refq.qa(c)
+    if cls == "neg_identity":
+        c = np.zeros((m, n, 4))
+        a = int(rng.integers(0, 4))
+        for i in range(min(m, n)):
+            c[i, i, a] = -1.0
         return refq.qa(c)
     if cls == "rank1":
         return refq.matmul(refq.randq(rng, m, 1), refq.randq(rng, 1, n))
